@@ -20,9 +20,15 @@ arr_real FIRDecimator::process(const arr_real& in) {
     DSPLIB_ASSERT(nx % decim_ == 0, "Input frame length must be a multiple of the 'decim'");
 
     arr_real x(nd + nx);
-    std::memcpy(x.data(), d_.data(), nd * sizeof(real_t));
-    std::memcpy(x.data() + nd, in.data(), nx * sizeof(real_t));
-    std::memcpy(d_.data(), x.data() + nx, nd * sizeof(real_t));
+    if (nd > 0) {
+        std::memcpy(x.data(), d_.data(), nd * sizeof(real_t));
+    }
+    if (nx > 0) {
+        std::memcpy(x.data() + nd, in.data(), nx * sizeof(real_t));
+    }
+    if (nd > 0) {
+        std::memcpy(d_.data(), x.data() + nx, nd * sizeof(real_t));
+    }
 
     auto y = dsplib::zeros(nx / decim_);
     const auto* px = x.data();
